@@ -239,6 +239,8 @@ def public_path(run):
     """payloads through real files: xlsx -> Parser (safety on/off) -> write_translation -> Executor(class_file)"""
     rng = random.Random(run.seed + 7)
     texts = [p for p in PAYLOADS if '\n' not in p and not p.startswith('=')] + ["it's", 'a"b', 'back\\slash', 'q{0}', '100%',
+                                                                                # texts beyond ASCII (their bytes matter when a file is decoded)
+                                                                                'say "\u4e2d\' + str (__e2p_canary__ ()) #', '\u00e9"\u00fc\'\u4e2d', '\u4e2d',
                                                                                 "=1+1", "=__e2p_canary__()", '="x"&"y"']     # text cells that look like formulas
     rows = {}
     for i, t in enumerate(texts):
@@ -252,9 +254,10 @@ def public_path(run):
         if '"' not in t:
             rows[(1, i)] = '="' + t + '"'
     x = os.path.join(run.scratch, 'c07.xlsx')
-    repo.write_xlsx(x, [('S', rows), ("O'Brien {x}", {(0, 0): 1})])
     builtins.__e2p_canary__ = _canary
-    for gate in (False, True):
+    # second sheet titles: quotes and braces; words that would read as a source-encoding declaration if they reached a comment line
+    for gate, title2 in ((False, "O'Brien {x}"), (True, "O'Brien {x}"), (False, 'coding=gbk'), (True, 'coding=latin-1'), (False, 'fileencoding=cp1251')):
+        repo.write_xlsx(x, [('S', rows), (title2, {(0, 0): 1})])
         _CANARY['n'] = 0
         p = os.path.join(run.scratch, f'c07_{int(gate)}.py')
         outcome, vals = 'ok', {}
